@@ -5,35 +5,24 @@
    differs from a rebuild's), and every answer is a function of it.
      Inv s = stored points well formed, and ix_valid -> Rep.
    C06_reachable: EVERY state reachable from an empty database through the public API
-   satisfies Inv, for every history of any length (ok_history = each operation is in its
-   documented domain; for MemoryStorage, no update torn by a raising callable: finding F16). *)
+   satisfies Inv, for every history of any length whose operations are in their documented
+   domain (wf_history: queries the DSL can build with total test functions; inserted points
+   well formed and kept as they are by storage). *)
 From Coq Require Import List ZArith NArith Bool.
 From TF Require Import Base Query Index DB Spec proofs.IndexDefs proofs.IndexP proofs.RepP proofs.DBReadP proofs.DBRemoveP
      proofs.DBStepP proofs.DBRunP proofs.DBSpecP.
 Import ListNotations.
 
-Theorem C06_reachable : forall E C norm inplace, (forall p, wf_point p -> wf_point (norm p)) ->
-  forall auto ops, ok_history E C norm inplace (init auto) ops ->
-  Inv (snd (run E C norm inplace (init auto) ops)).
+Theorem C06_reachable : forall E C norm, (forall p, wf_point p -> wf_point (norm p)) ->
+  forall auto ops, wf_history E norm ops -> Inv (snd (run E C norm (init auto) ops)).
 Proof. exact reachable_Inv. Qed.
-Theorem C06_step : forall E C norm inplace, (forall p, wf_point p -> wf_point (norm p)) ->
-  forall s o, Inv s -> wf_op E norm o -> no_torn_update inplace o (snd (step E C norm inplace s o)) ->
-  Inv (fst (step E C norm inplace s o)).
+Theorem C06_step : forall E C norm, (forall p, wf_point p -> wf_point (norm p)) ->
+  forall s o, Inv s -> wf_op E norm o -> Inv (fst (step E C norm s o)).
 Proof. exact step_Inv. Qed.
-(* without in-place mutation (CSVStorage) the side condition is empty *)
-Theorem C06_reachable_csv : forall E C norm, (forall p, wf_point p -> wf_point (norm p)) ->
-  forall auto ops, wf_history E norm ops -> Inv (snd (run E C norm false (init auto) ops)).
-Proof. intros E C norm Hn auto ops H. apply (reachable_Inv E C norm false Hn). now apply wf_ok_history. Qed.
-
 (* a described index and a rebuilt one give the same set of matches for every query the index serves *)
 Theorem C06_valid_is_rebuilt_search : forall E i pts q, Rep i pts -> wf_points pts -> wf_query E q -> exact_for_index q = true ->
   exists a b, isearch E i q = Some a /\ isearch E (ix_build pts) q = Some b /\ NoDup a /\ NoDup b /\ forall k, In k a <-> In k b.
-Proof.
-  intros E i pts q HR Hwf Hq Hx.
-  destruct (isearch_exact E i pts q HR Hwf Hq Hx) as [a [Ha [Hna Hia]]].
-  destruct (isearch_exact E (ix_build pts) pts q (Rep_build pts Hwf) Hwf Hq Hx) as [b [Hb [Hnb Hib]]].
-  exists a, b. repeat split; auto; intros H; [apply Hib, Hia|apply Hia, Hib]; exact H.
-Qed.
+Proof. exact valid_is_rebuilt_search. Qed.
 (* incremental maintenance: each step keeps the description *)
 Theorem C06_build : forall pts, wf_points pts -> Rep (ix_build pts) pts.
 Proof. exact Rep_build. Qed.
@@ -50,7 +39,6 @@ Proof. exact read_prelude_valid. Qed.
 
 Print Assumptions C06_reachable.
 Print Assumptions C06_step.
-Print Assumptions C06_reachable_csv.
 Print Assumptions C06_valid_is_rebuilt_search.
 Print Assumptions C06_build.
 Print Assumptions C06_insert.
